@@ -14,7 +14,6 @@ import sys
 
 LEVEL = 'exploration'
 LONG = 90 * 86400
-DEFAULT_HOOKS = '/repo/acmed/config/default_hooks.toml'
 
 if __name__ == '__main__':
     sys.path.insert(0, os.path.dirname(os.path.dirname(os.path.abspath(__file__))))
@@ -65,7 +64,7 @@ def inner(case):
         rec['args'] += ['ls:proofdir=' + proof_dir, 'stat:pidfile=' + pid_file, 'stat:sockfile=' + sock_file]
         hooks = [group] + (['git'] if case['git'] else []) + ['rec']
         c = {
-            'include': [DEFAULT_HOOKS],
+            'include': [C.REPO + '/acmed/config/default_hooks.toml'],
             'global': {'accounts_directory': dd + '/acc', 'certificates_directory': dd + '/certs', 'renew_delay': '1d'},
             'endpoint': [{'name': 'ca1', 'url': ca.url('ca1'), 'tos_agreed': True}],
             'hook': [rec],
